@@ -329,16 +329,22 @@ def pairing_clause(model, rep, funcs):
             vk = kwarg(c, "var_kwarg")
             if vk is None:
                 continue
-            recv = c.func.value
+            MX_ = Matcher(f)
+            recv = MX_.expr(c.func.value)  # `sub = self.replace(...); sub.iter_mapping_tasks(...)`
             # receiver may be self.replace(output_shape=...): same molecules
             while isinstance(recv, ast.Call) and isinstance(recv.func, ast.Attribute) and recv.func.attr == "replace" and not kwarg(recv, "molecules"):
                 recv = recv.func.value
             base = dotted(recv)
             rep.instance("O.kwargs", f.loc(c))
+            vk = Matcher(f).expr(vk)  # a dictionary that was given a name first is the same dictionary
+            if isinstance(vk, ast.Dict) and all(isinstance(k_, ast.Constant) and isinstance(k_.value, str) for k_ in vk.keys):
+                # `{"quaternion": col}` is `dict(quaternion=col)`
+                vk = ast.Call(func=ast.Name(id="dict", ctx=ast.Load()), args=[], keywords=[ast.keyword(arg=k_.value, value=v_) for k_, v_ in zip(vk.keys, vk.values)])
             if not (isinstance(vk, ast.Call) and dotted(vk.func) == "dict"):
                 rep.ob("O", a, "var_kwarg is a dict display of per-molecule columns", None, norm_src(vk), node=c, fn=f, clause="1 order")
                 continue
             for k in vk.keywords:
+                k = ast.keyword(arg=k.arg, value=MX_.expr(k.value))  # `molecules = self.molecules; molecules.pos / self.scale`
                 txt = norm_src(k.value)
                 names = [dotted(n) for n in ast.walk(k.value) if isinstance(n, ast.Attribute)]
                 mol_refs = [n for n in names if n and (n.endswith(".molecules") or n.endswith("._molecules"))]
